@@ -514,6 +514,13 @@ func (c *ChannelArbitrator) progressStateMachineAfterRestart(bestHeight int32,
 		case StateBroadcastCommit:
 			fallthrough
 		case StateCommitmentBroadcasted:
+			fallthrough
+
+		// The contract closed state is re-executed with the close
+		// trigger as well: with a chain trigger the chain actions for
+		// HTLCs that are not yet due would be left out and no
+		// resolvers would be created for them.
+		case StateContractClosed:
 			switch c.cfg.CloseType {
 
 			case channeldb.CooperativeClose:
